@@ -109,7 +109,7 @@ def r1(ctx, rep, prog):
                 rep.check(ok, 'R1', key, 'closure result collected into a Result that reaches `?`', f"the Result of `{nows(c['snippet'])[:60]}` is produced in a closure of {root['id']} whose iterator is not collected into a Result consumed by `?` — a rejection (u64, tuple, …) nested in a generic argument is dropped and the type is emitted anyway", site)
                 continue
             rep.fail('R1', key, f"the Result of `{nows(c['snippet'])[:60]}` in {root['id']} neither reaches a `?` nor is returned: a type-parser rejection can be ignored", site)
-    rep.floor('R1', 'type-parser producer calls', n, 15)
+    rep.floor('R1', 'type-parser producer calls', n, 8)
     # discarding adaptors over producer results (astq view)
     DISCARD = {'flatten', 'ok', 'unwrap_or', 'unwrap_or_default', 'unwrap_or_else', 'is_ok', 'is_err', 'filter_map', 'flat_map', 'find_map', 'map_while'}
     for f in ctx.astq['functions']:
